@@ -19,7 +19,9 @@ NAMES = ["foo", "bar", "src/a.c", "src/b.c", "out/x", "a/b/c", "README", ".hidde
          # siblings that share a prefix *string* with a directory used as IN prefix, and what is left when it is cut off
          "srcfoo", "src2/a.c", "2/a.c", "outx", "a/bc", "dstfoo",
          # the same names in another letter case (matching is case-sensitive)
-         "Foo", "readme", "SRC/a.c", "src/A.C"]
+         "Foo", "readme", "SRC/a.c", "src/A.C",
+         # a directory named like its parent
+         "src/src/a.c", "dst/dst/foo", "out/out/x"]
 PATTERNS = ["*", "foo", "*.c", "src/*", "?ar", "[fb]*", "[!f]*", "[a-c]*", "a/b/*", "out/*", "nomatch", "src/a.c",
             "*o*", "dst/*", "pkg/*", "a.c", "b.c", "x", "c", "FOO", "readme", "README", "*.C", "SRC/*", "[F]*", "Src/*",
             # character classes without any * or ?
@@ -87,6 +89,10 @@ def near_variants(p):
             out.add(p[len(pre):])
         out.add(pre + "/" + p)
         out.add(pre + p)
+        # a directory named like the prefix directly below the prefix (the prefix is to be taken off once)
+        out.add(pre + "/" + pre + "/" + p)
+        if p.startswith(pre + "/"):
+            out.add(pre + "/" + p)
     return sorted(x for x in out if x and not x.startswith("/"))
 
 
